@@ -352,7 +352,7 @@ func sortStrings(s []string) {
 
 // ---- race reports ------------------------------------------------------------
 
-var frameRe = regexp.MustCompile(`(?m)^  ([^\s(]+)\(`)
+var frameRe = regexp.MustCompile(`(?m)^  (\S+)\(\)\s*$`)
 
 const modPrefix = "github.com/pip-services3-gox/pip-services3-expressions-gox/"
 
